@@ -122,14 +122,14 @@ def cases(spec, ctx):
         else:
             b = G.rand_layout(rng, g, 5, overlap=rng.random() < 0.2)
         yield {"kind": "random", "a": a, "sa": rng.choice(G.STRANDS), "b": b, "sb": rng.choice(G.STRANDS), "genome": g,
-               "parent": rng.choice(["none", "seq", "seq", "mismatch-id", "one-none", "mismatch-type", "mismatch-seq"]), "seed": rng.randrange(1 << 30)}
+               "parent": rng.choice(["none", "seq", "seq", "mismatch-id", "one-none", "mismatch-type", "mismatch-seq", "mismatch-grandparent"]), "seed": rng.randrange(1 << 30)}
     # many blocks (9..24): code paths that switch strategy by block count (bisection, indexes, trees) and unsorted block ends
     # (nested blocks; zero-length blocks sharing a start with a longer block).  Own stream: the cases above are unchanged.
     mrng = __import__("random").Random(f"C02-many:{ctx.seed}:{i}")
     for _ in range(sc["NR"] // (6 * n) + 1):
-        g = mrng.choice([60, 200, 1000])
+        g = mrng.choice([200, 1000, 5000])
         ova = mrng.random() < 0.6
-        k = mrng.randint(9, 24)
+        k = mrng.choice([mrng.randint(9, 24), mrng.randint(17, 40), mrng.randint(33, 70), mrng.randint(64, 150)])
         a = []
         while len(a) < k:
             a = list(G.rand_layout(mrng, g, k, overlap=ova))
@@ -145,7 +145,7 @@ def cases(spec, ctx):
             s0 = mrng.randint(0, g - 1)
             b = ((s0, min(g, s0 + mrng.choice([1, 2, 5, g // 4]))),)
         else:
-            b = G.rand_layout(mrng, g, mrng.choice([2, 5, 12]), overlap=mrng.random() < 0.3)
+            b = G.rand_layout(mrng, g, mrng.choice([2, 5, 12, 40, 90]), overlap=mrng.random() < 0.3)
         if mrng.random() < 0.3:
             a, b = b, tuple(a)
         yield {"kind": "random", "a": tuple(a), "sa": mrng.choice(G.STRANDS), "b": tuple(b), "sb": mrng.choice(G.STRANDS), "genome": g,
@@ -183,6 +183,13 @@ def _parent(case, which="a"):
         return G.make_parent("id", pid="chr1") if which == "a" else None
     if mode == "mismatch-type":     # same id, different sequence type
         return G.make_parent("id", pid="chr1", seq_type="chromosome" if which == "a" else "plasmid")
+    if mode == "mismatch-grandparent":   # same id, type and sequence; the parent sits at a different place on ITS parent (nested coordinate systems)
+        from inscripta.biocantor.location.location_impl import SingleInterval
+        from inscripta.biocantor.location.strand import Strand
+        from inscripta.biocantor.parent import Parent
+
+        top = Parent(id="chrT", sequence_type="chromosome", location=SingleInterval(10, 10 + g + 8, Strand.PLUS) if which == "a" else SingleInterval(30, 30 + g + 8, Strand.PLUS))
+        return Parent(id="chr1", sequence_type="region", parent=top)
     if mode == "mismatch-seq":      # same id and type, different sequence content (same length)
         return G.make_parent("seq", genome=("ACGT" if which == "a" else "TGCA") * (g // 4 + 2), pid="chr1")
     raise ValueError(mode)
@@ -249,6 +256,13 @@ def binary(ctx, A, a, sa, B, b, sb, parents_equal=True, tag="plain"):
         for name in ("has_overlap", "intersection", "contains", "minus"):
             r, e = ctx.call(getattr(A, name), B, strict_parent_compare=True)
             ctx.check("set.parent-flags", isinstance(e, MismatchedParentException), key=("strict", name), got=repr(r), exc=repr(e))
+            # the same call with every flag handed over positionally, in the documented order and with the documented defaults
+            import inspect
+
+            params = [q for q in list(inspect.signature(getattr(A, name)).parameters.values())[1:] if q.kind == q.POSITIONAL_OR_KEYWORD]
+            if params and params[-1].name == "strict_parent_compare" and all(q.default is not q.empty for q in params):
+                r, e = ctx.call(getattr(A, name), B, *([q.default for q in params[:-1]] + [True]))
+                ctx.check("set.parent-flags", isinstance(e, MismatchedParentException), key=("strict-positional", name), got=repr(r), exc=repr(e))
         if A.parent is not None:
             r, e = ctx.call(A.union, B) if same_strand else (None, None)
             if same_strand:
